@@ -207,7 +207,10 @@ pub fn c11(c: &Corpus, _tier: &str) -> Report {
         let followers: [(&str, &str); 3] = [("select1", "SELECT 1"), ("self", s.as_str()), ("commit", "COMMIT")];
         for (fname, f) in followers {
             let fv = match parse(d, o, f) { G::Val(Ok(fv)) => fv, _ => continue };
-            let variants = [format!("{s}{j}{f}"), format!(";{s}{j};\n;{f}{}", if j == " ; " { ";" } else { "\n;" })];
+            // layouts of the separator: blank-padded, with empty statements, and (unless the text ends
+            // in a line comment) glued to both neighbours
+            let mut variants = vec![format!("{s}{j}{f}"), format!(";{s}{j};\n;{f}{}", if j == " ; " { ";" } else { "\n;" })];
+            if j == " ; " { variants.push(format!("{s};{f}")); }
             for (vi, script) in variants.iter().enumerate() {
                 r.evaluations += 1;
                 let mut want = v.clone();
